@@ -174,6 +174,22 @@ def gRunF : Reader → List Hts.Spec.Flat.Op → Prog (List (Out × Reader))
   | r, op :: ops =>
     (gStepF r op).bind fun p => (gRunF p.1 ops).bind fun l => .done ((p.2, p.1) :: l)
 
+/-- A client of the reader that chooses each operation from what the earlier ones returned (output and reader
+state, i.e. `LastChunk()`, `BlockLen()`): `bam.Reader`, `bam.Iterator`, `index.ChunkReader` are of this kind. -/
+inductive Client (α : Type) where
+  | done (a : α)
+  | op (o : Hts.Spec.Flat.Op) (k : Out → Reader → Client α)
+
+/-- The client over the sequential reader. -/
+def Client.run {α : Type} : Client α → Reader → α × Reader
+  | .done a, r => (a, r)
+  | .op o k, r => (k (r.step o).2 (r.step o).1).run (r.step o).1
+
+/-- The client as a program over the protocol. -/
+def Client.prog {α : Type} : Client α → Reader → Prog (α × Reader)
+  | .done a, r => .done (a, r)
+  | .op o k, r => (gStep r o).bind fun p => (k p.2 p.1).prog p.1
+
 /-! ### Running a program -/
 
 /-- The block a call installs when every load is the sequential one (on identities). -/
